@@ -138,7 +138,8 @@ def oracle(case):
     np.random.seed(case['np_seed'])
     kw = {}
     if case['input'].get('align_with'):
-        kw['align_with'] = np.array(case['input']['align_with'], dtype=float)
+        # the axis as float or as integer array (np.array([1, 0]))
+        kw['align_with'] = np.array(case['input']['align_with'], dtype=float if case['np_seed'] % 2 else int)
     pos = sut(vespr_layout, g, default_bond=case['bond'], **kw)
     check_layout(g, pos, case['bond'], 'original labels')
     if case.get('np_bond'):
@@ -161,7 +162,10 @@ def oracle(case):
             fig, ax = plt.subplots()
             try:
                 np.random.seed(case['np_seed'])
-                _, pos3 = sut(draw_molecule, g, ax=ax, layout_method='vespr', cg_mapping=False, default_bond=bond)
+                dkw = dict(kw)
+                if not dkw and case['np_seed'] % 3 == 0:
+                    dkw['align_with'] = ['x', 'y', 'diag'][case['np_seed'] % 9 // 3]
+                _, pos3 = sut(draw_molecule, g, ax=ax, layout_method='vespr', cg_mapping=False, default_bond=bond, **dkw)
             finally:
                 plt.close(fig)
             check_layout(g, pos3, bond, 'draw_molecule(default_bond=%r)' % bond)
@@ -171,7 +175,7 @@ def oracle(case):
         fig, ax = plt.subplots()
         try:
             np.random.seed(case['np_seed'])
-            _, pos4 = sut(draw_molecule, g, ax=ax, layout_method='vespr', cg_mapping=False, default_bond=case['draw'])
+            _, pos4 = sut(draw_molecule, g, ax=ax, layout_method='vespr', cg_mapping=False, default_bond=case['draw'], **kw)
         finally:
             plt.close(fig)
         check_layout(g, pos4, case['draw'], 'draw_molecule again after the caller scaled the returned positions in place')
